@@ -203,7 +203,7 @@ def r12_iteration_exits(ctx):
         okom = len(om) == 1 and unparse(om[0].value).replace('E.V(1)', 'V1').replace('E.V(', 'V(') == 'V1 / V(10 ** self.omega10)'
         ctx.check(okom, R, om[0] if om else f.node, f, 'omega is 1/10^omega10 in the count\'s arithmetic', 'self.omega = V1 / V(10**self.omega10)',
                   'omega is defined as `%s`' % (unparse(om[0].value) if om else None))
-        it = ri.helpers.get('iterate') or ri.helpers.get('iterateStep')
+        it = ri.helper(ctx, 'iterate')
         need(it is not None, '%s: no iterate()/iterateStep() helper' % ri.cls.qualname)
         icfg = cfg_of(it)
         # the comparisons that end an iteration
